@@ -1,0 +1,11 @@
+//go:build !verif
+
+package compose
+
+// verification hooks (build tag verif): no-ops in normal builds.
+
+type verifTM struct{}
+
+type verifTask struct{}
+
+func verifPoint(_ int, _ *taskManager, _ *task) {}
